@@ -263,6 +263,10 @@ func (c *pchecker) redir(what string, r *ast.Redir) (ast.Pos, ast.Pos) {
 		if dp := r.Delim.Pos(); dp.Line() <= r.Word.End().Line() || dp.Col() != 1 {
 			c.errf("%s.Delim: starts at %s, want the beginning of a line after the operator's line %d", what, ps(dp), r.OpPos.Line())
 		}
+		// body and delimiter line are children of the redirection, for << and <<- alike
+		if de := r.Delim.End(); e.Before(de) {
+			c.errf("%s: ends at %s, before its own delimiter line ends at %s", what, ps(e), ps(de))
+		}
 	}
 	return p, e
 }
